@@ -163,6 +163,7 @@ static void arena_install_handlers (void)
   sigaction (SIGILL, &sa, NULL);
   sigaction (SIGFPE, &sa, NULL);
   sigaction (SIGTRAP, &sa, NULL);
+  sigaction (SIGVTALRM, &sa, NULL);   /* CPU-time watchdog of callers that arm one with setitimer(ITIMER_VIRTUAL) */
 }
 
 #endif
